@@ -14,6 +14,25 @@ for f in sorted(glob.glob(os.path.join(R, "notes", "C*.md"))):
     body = re.sub(r"^# ", "##### ", body, flags=re.M)
     body = re.sub(r"^## ", "##### ", body, flags=re.M)
     d += f"#### {name}\n\n{body}\n\n"
+import json
+d += "### 10.7 Findings register (generated from known_findings.json + known_findings.d/*.json)\n\n"
+fixed, opened = [], {}
+for f in [os.path.join(R, "known_findings.json")] + sorted(glob.glob(os.path.join(R, "known_findings.d", "*.json"))):
+    if not os.path.exists(f): continue
+    j = json.load(open(f))
+    fixed += j.get("fixed", [])
+    for k in j.get("findings", []):
+        if k.get("status", "open") == "open":
+            opened.setdefault(k["property"], []).append(k)
+d += "**Repaired in /repo (`fix:` commits; a fixed entry suppresses nothing):**\n\n" + "".join(f"* {x}\n" for x in fixed) + "\n"
+d += "**Open (printed as KNOWN-FINDING, matched by signature and input):**\n\n"
+for pid in sorted(opened):
+    ks = opened[pid]
+    if len(ks) > 12:
+        d += f"* {pid}: {len(ks)} entries, e.g.\n" + "".join(f"  * `{k['id']}` — {k['what'][:260]}\n" for k in ks[:6]) + f"  * … see the files for the other {len(ks)-6}\n"
+    else:
+        d += "".join(f"* {pid} `{k['id']}` — {k['what'][:300]}\n" for k in ks)
+d += "\n"
 s = os.path.join(R, "seeded", "SUMMARY.md")
 if os.path.exists(s):
     d += "### 10.6 Seeded-change results\n\n" + open(s).read() + "\n"
